@@ -640,7 +640,7 @@ DUMP = 'o = ""; for (k,v in $*) { o = o . " " . format("{}:{}", bytes(k), bytes(
 def line_reader_correspondence(ctx, exe):
     rng = ctx.rng
     n = 150 if ctx.tier == "quick" else 3000
-    alpha = {"dkvp": b"ab=,\n\r 1", "nidx": b"ab \n\r,1", "tsv": b"ab\t\n\r\\nt1"}
+    alpha = {"dkvp": b"ab=,\n\r 1", "nidx": b"ab \t\n\r,1", "tsv": b"ab\t\n\r\\nt1"}
     reqs, meta = [], []
     for fmt, code in (("dkvp", 0), ("nidx", 1), ("tsv", 2)):
         docs = list(SEEDS[fmt]) + [b"", b"\n", b"\r\n", b"a", b"a\r", b"\n\n"]
